@@ -81,7 +81,8 @@ class SetTestResult:
       # version recorded (kept if already present), weak flag monotone and set by a positive result
       ("C16", "test_info.paranoid_lib_version == (old(test_info.paranoid_lib_version) "
               "if str_nonempty(old(test_info.paranoid_lib_version)) else current_version())"),
-      ("C16", "test_info.weak == (old(test_info.weak) or test_result.result)"),
+      # C01: a key with recorded factors is marked weak -- the Check methods pass result=True with the factors
+      ("C01,C16", "test_info.weak == (old(test_info.weak) or test_result.result)"),
       # attached info untouched
       ("C16", "len(test_info.attached_info) == old(len(test_info.attached_info)) and "
               "forall(j, 0, len(test_info.attached_info), test_info.attached_info[j].info_name == "
@@ -161,6 +162,7 @@ class Int2Bytes:
 
 @contract(f"{U}::AttachFactors")
 class AttachFactors:
+  frame_props = ["C01", "C16"]
   """Body uses str(set)/ast.literal_eval/format: outside the VC generator's string reach -> assumed frame contract,
   exercised by the bounded tier (bounded/c16.py: attach_factors_roundtrip)."""
   params = {"test_info": "rec:TestInfo", "info_name": "str", "factors": "opaque"}
@@ -174,6 +176,7 @@ class AttachFactors:
 
 @contract(f"{U}::GetAttachedFactors")
 class GetAttachedFactors:
+  frame_props = ["C01", "C16"]
   params = {"test_info": "rec:TestInfo", "info_name": "str"}
   returns = "opaque"
   assumed = True
